@@ -98,6 +98,82 @@ def fresh_outputs(indices, settings):
     return res
 
 
+PAIRS = r"""
+import sys, json, os, warnings, re
+sys.path.insert(0, %r); sys.path.insert(0, %r)
+import prettyprinter as pp, corpus_values
+ADDR = re.compile(r'0x[0-9a-f]+|id=\d+')
+vals = corpus_values.corpus()
+job = json.loads(sys.stdin.read())
+firsts, fresh, settings, triples = job['firsts'], job['fresh'], job['settings'], job['triples']
+warnings.simplefilter('ignore')
+def show(i):
+    try: return pp.pformat(vals[i], **settings)
+    except Exception as e: return 'EXC:' + type(e).__name__
+def report(prefix, j, o):
+    if str(j) in fresh and ADDR.sub('ADDR', o) != ADDR.sub('ADDR', fresh[str(j)]):
+        os.write(1, ('@@' + json.dumps({'prefix': prefix, 'j': j, 'got': o[:1200]}) + '\n').encode())
+n = 0
+def branch(prefix, rest_levels):
+    # the state reached by printing `prefix` (in this process); fork once per next value
+    global n
+    for j in (range(len(vals)) if rest_levels == 1 else rest_levels[0]):
+        pid = os.fork()
+        if pid == 0:
+            o = show(j)
+            report(prefix, j, o)
+            if rest_levels != 1 and len(rest_levels) > 1:
+                branch(prefix + [j], rest_levels[1:] if len(rest_levels) > 2 else 1)
+            os._exit(0)
+        os.waitpid(pid, 0)
+        n += 1
+for i in firsts:
+    pid = os.fork()
+    if pid == 0:
+        show(i)
+        branch([i], 1)
+        os.write(1, ('##%%d\n' %% n).encode())
+        os._exit(0)
+    os.waitpid(pid, 0)
+for (i, j) in triples:
+    pid = os.fork()
+    if pid == 0:
+        show(i); show(j)
+        branch([i, j], 1)
+        os.write(1, ('##%%d\n' %% n).encode())
+        os._exit(0)
+    os.waitpid(pid, 0)
+"""
+
+
+def fresh_prefix_runs(fresh, settings, triples):
+    """Every ordered pair (i, j) of corpus values - and the given (i, j) prefixes followed by every k - printed in that order
+    starting from an interpreter that has imported the package and built the corpus but printed nothing (one fork per
+    prefix, so nothing printed for one pair is visible to another).  Returns (#final prints, disagreements with `fresh`)."""
+    here = os.path.dirname(os.path.abspath(__file__))
+    code = PAIRS % (REPO, here)
+    n = len(fresh)
+    idx = sorted(fresh)
+    slices = [idx[k::NCPU] for k in range(NCPU)]
+    tslices = [triples[k::NCPU] for k in range(NCPU)]
+    procs = []
+    for sl, tl in zip(slices, tslices):
+        p = subprocess.Popen([sys.executable, '-c', code], stdin=subprocess.PIPE, stdout=subprocess.PIPE, stderr=subprocess.DEVNULL, text=True)
+        p.stdin.write(json.dumps({'firsts': sl, 'fresh': {str(k): v for k, v in fresh.items()}, 'settings': settings, 'triples': tl}))
+        p.stdin.close()
+        procs.append(p)
+    total, bad = 0, []
+    for p in procs:
+        out = p.stdout.read()
+        p.wait()
+        for line in out.splitlines():
+            if line.startswith('@@'):
+                bad.append(json.loads(line[2:]))
+            elif line.startswith('##'):
+                total += int(line[2:])
+    return total, bad
+
+
 def purity_section(tier, seed):
     import corpus_values
     rng = random.Random(seed * 37 + 6)
@@ -109,6 +185,18 @@ def purity_section(tier, seed):
     idx = list(range(len(vals)))
     for st in settings_list:
         fresh = fresh_outputs(idx if tier == 'thorough' or st == {} else rng.sample(idx, 16), st)
+        if st == {} or tier == 'thorough':
+            # first-print effects: every ordered pair from a state in which nothing has been printed yet (in-process permutations
+            # below start from whatever the earlier sections and permutations left behind)
+            triples = [(rng.choice(idx), rng.choice(idx)) for _ in range(40 if tier == 'quick' else 400)]
+            npairs, bad = fresh_prefix_runs(fresh, st, triples)
+            tot += npairs
+            nt += len(idx) + len(triples)
+            for b in bad[:3]:
+                if len(fails) < 3:
+                    fails.append({'kind': 'output-depends-on-history', 'value_index': b['j'], 'value': repr(vals[b['j']])[:200], 'settings': st,
+                                  'printed_first_in_a_fresh_interpreter': fresh[b['j']][:400], 'printed_after_others': b['got'][:400],
+                                  'order_prefix': b['prefix'] + [b['j']], 'fresh_process': True})
         before = [snapshot(v) for v in vals]
         n_perm = 6 if tier == 'quick' else 40
         for _ in range(n_perm):
@@ -131,7 +219,7 @@ def purity_section(tier, seed):
                               'before': repr(a)[:400], 'after': repr(b)[:400]})
     stats = {'evaluations': tot, 'distinct_nontrivial': nt, 'corpus': len(vals), 'settings': len(settings_list), 'mismatches': 0,
              'samples': [{'value': repr(vals[30])[:100]}, {'value': repr(vals[33])[:100]}],
-             'rule': 'a corpus of %d values (built-ins, cycles, shared substructure, both zeros, stdlib types, unregistered objects) printed in random '
+             'rule': 'a corpus of %d values (built-ins, cycles, shared substructure, both zeros, stdlib types, unregistered objects) printed (a) as every ordered pair, and sampled triples, from a forked state in which nothing has been printed, (b) in random '
                      'permutations with repetitions under %d settings; every output compared with the one obtained when that value is printed first in a '
                      'fresh interpreter; canonical deep snapshots (types, identity structure, defaultdict keys, deque order) before and after; '
                      'non-trivial = permutations' % (len(vals), len(settings_list))}
